@@ -57,8 +57,10 @@ class Path:
         p.loop_depth = self.loop_depth
         return p
 
-    def cond_texts(self):
-        return [('' if pol else 'not ') + norm(t) for t, pol, _ in self.conds]
+    def cond_texts(self, orig=False):
+        """Branch conditions of the path; orig=True renders the tests as written
+        (local names not substituted)."""
+        return [('' if pol else 'not ') + norm(o if orig and isinstance(o, ast.expr) else t) for t, pol, o in self.conds]
 
     def calls(self, pred=None):
         return [e for e in self.events if e.kind == 'call' and (pred is None or pred(e.node))]
@@ -262,11 +264,13 @@ class Explorer:
             out = []
             if val is UNKNOWN or val:
                 a = p.fork()
-                a.conds.append((t, True, st.test))
+                if val is UNKNOWN:
+                    a.conds.append((t, True, st.test))
                 out.extend(self._block(st.body, [a], done))
             if val is UNKNOWN or not val:
                 b = p.fork()
-                b.conds.append((t, False, st.test))
+                if val is UNKNOWN:
+                    b.conds.append((t, False, st.test))
                 out.extend(self._block(st.orelse, [b], done))
             return out
         if isinstance(st, (ast.For, ast.While)):
